@@ -6,7 +6,7 @@ import ast
 from typing import Dict, List, Optional, Set, Tuple
 
 from sa.cfg import CFG
-from sa.model import AnalysisError, ClassInfo, FuncInfo, Program, dotted, norm, walk_local
+from sa.model import AnalysisError, CallSite, ClassInfo, FuncInfo, Program, dotted, norm, walk_local
 from sa.report import Context
 from sa.rules import common
 from sa.util import (
@@ -40,6 +40,7 @@ ASSUMPTIONS = [
 ]
 
 RCH = "pymarkdown.return_code_helper.ReturnCodeHelper"
+MAIN = "pymarkdown.main.PyMarkdownLint"
 ENUM = "pymarkdown.return_code_helper.ApplicationResult"
 SPEC = {  # from the property statement: category -> (default, minimal)
     "SUCCESS": (0, 0),
@@ -477,6 +478,66 @@ def config_read_after_load(ctx: Context, rule_id: str) -> None:
         rule.fail(key, where(init), f"a setting is read before the configuration layers are applied, so the value given in a configuration file or --set is ignored: {witness['message']}", list(witness["steps"]))  # type: ignore[arg-type]
 
 
+def scheme_before_scheme_dependent_exits(ctx: Context, rule_id: str = "R18i") -> None:
+    """An exit whose result maps to different codes under the two schemes must not happen before the
+    scheme is resolved (ReturnCodeHelper.set_initial_state).  Event order over main(): S = the
+    scheme is resolved, X = a process exit whose reaching result constants include a
+    scheme-dependent one (or are unknown).  No path may reach X before S."""
+    from sa.events import EventOrder, Spec
+
+    prog = ctx.prog
+    rule = ctx.rule(rule_id, "the return-code scheme is resolved before every exit whose code depends on it", 2)
+    helper = prog.cls(RCH)
+    setter = helper.methods.get("set_initial_state")
+    exiter = helper.methods.get("exit_application")
+    if setter is None or exiter is None:
+        raise AnalysisError("ReturnCodeHelper.set_initial_state / exit_application not found")
+    tables = {name: mapping for name, (_fn, mapping) in scheme_tables(prog).items()}
+    if len(tables) < 2:
+        raise AnalysisError("fewer than two return-code scheme tables found")
+    members = set.intersection(*[set(t) for t in tables.values()])
+    dependent = {m for m in members if len({t[m] for t in tables.values()}) > 1}
+    if not dependent:
+        raise AnalysisError("no result differs between the schemes (the tables moved?)")
+
+    def result_constants(func: FuncInfo, expr: ast.AST) -> Optional[Set[str]]:
+        names: Set[str] = set()
+        for value in reaching_values(prog, func, expr):
+            text = norm(value)
+            if text.startswith("ApplicationResult."):
+                names.add(text.split(".", 1)[1])
+            else:
+                return None
+        return names
+
+    def event_of(func: FuncInfo, site: CallSite) -> Optional[str]:
+        if setter in site.targets:
+            return "S"
+        if exiter in site.targets and site.node.args:
+            constants = result_constants(func, site.node.args[0])
+            if constants is None or constants & dependent:
+                return "X"
+        return None
+
+    # the initialisation phase: the direct callee of main() from which the scheme is resolved.  Everything main()
+    # does after it comes after the scheme; inside it, no scheme-dependent exit may precede the resolution, and
+    # every normal path through it resolves the scheme.
+    main = prog.method(MAIN, "main")
+    phases = [t for site in prog.sites_in(main) for t in site.targets if setter.qualname in prog.reachable([t])]
+    if not phases:
+        raise AnalysisError("main() never reaches ReturnCodeHelper.set_initial_state")
+    phase = phases[0]
+    spec = Spec(0, {(0, "S"): 1, (1, "S"): 1, (1, "X"): 1}, accept_normal={1}, accept_raise={0, 1}, names={0: "scheme not resolved yet", 1: "scheme resolved"})
+    order = EventOrder(prog, event_of, raising=None)
+    witness = order.check(phase, spec)
+    key = f"{phase.short}: scheme before exits"
+    if witness is None:
+        rule.ok(key, f"every exit with a result in {sorted(dependent)} (or an unknown result) follows set_initial_state; every normal path resolves the scheme")
+    else:
+        rule.fail(key, where(phase), f"a run can end with a scheme-dependent result before the return-code scheme is resolved (or initialisation can finish without resolving it), so the default scheme's code is used whatever was configured: {witness['message']}", list(witness["steps"]))  # type: ignore[arg-type]
+    rule.ok(f"{helper.name}: scheme-dependent results", f"{sorted(dependent)} differ between {sorted(tables)}")
+
+
 def run(ctx: Context) -> None:
     r18a(ctx)
     r18b(ctx)
@@ -488,6 +549,13 @@ def run(ctx: Context) -> None:
 
     c15.reported_means_failed(ctx, "R18h")
     config_read_after_load(ctx, "R18g")
+    from sa.rules import c10
+
+    c10.r10c(ctx)
+    ctx.rules[-1].rule_id = "R18j"
+    for finding in ctx.rules[-1].findings:
+        finding.rule = "R18j"
+    scheme_before_scheme_dependent_exits(ctx)
     if ctx.tier == "thorough":
         from sa.rules import driver_exploration
 
